@@ -435,6 +435,36 @@ fn run_fault(case: &str, c: &FaultCase, ctx: &mut Ctx, drv: &mut Driver, rep: &m
             if !owed { problems_spec.push(format!("unexpected diagnostic: {}", l)); }
         }
     }
+    // --- the --stats / --json summary: files searched, files with matches
+    // (not for --json: its per-file sink counts a search only once `begin` was printed, i.e. only files with a
+    // match — json.rs `finish` returns early otherwise —, so "searches" there is a property of the JSON printer)
+    if searching && c.stats && c.mode != "json" && !c.m0 && !quiet_unknown {
+        let so_txt = out.stdout_str();
+        let seen_stats: Option<(u64, u64)> = if c.mode == "json" {
+            so_txt.lines().filter_map(|l| serde_json::from_str::<serde_json::Value>(l).ok()).find(|v| v["type"] == "summary").and_then(|v| {
+                Some((v["data"]["stats"]["searches"].as_u64()?, v["data"]["stats"]["searches_with_match"].as_u64()?))
+            })
+        } else {
+            let num = |suffix: &str| so_txt.lines().find(|l| l.ends_with(suffix)).and_then(|l| l.split(' ').next()?.parse::<u64>().ok());
+            match (num(" files searched"), num(" files contained matches")) {
+                (Some(a), Some(b)) => Some((a, b)),
+                _ => None,
+            }
+        };
+        let reply = drv.ask(&format!("c15.stats {} {}", cfg, items_sx));
+        let t: Vec<&str> = reply.split(' ').collect();
+        let seen_txt = seen_stats.map_or("-".to_string(), |(a, b)| format!("{} {}", a, b));
+        rep.branch("stats-summary");
+        if t.len() >= 5 && t[0] == "model" {
+            let sp = t.iter().position(|x| *x == "spec").unwrap_or(0);
+            let model_txt = t[1..sp].join(" ");
+            let spec_txt = t[sp + 1..].join(" ");
+            if seen_txt != model_txt { problems_model.push(format!("--stats summary (searched, with matches) {} vs model {}", seen_txt, model_txt)); }
+            if seen_txt != spec_txt { problems_spec.push(format!("--stats summary (searched, with matches) {} vs tree {}", seen_txt, spec_txt)); }
+        } else {
+            problems_model.push(format!("driver reply {}", reply));
+        }
+    }
     // R: results and diagnostic are exclusive
     for (i, k) in c.ents.iter().enumerate() {
         if *k == 'R' && searching && !c.q && seen_diag.contains(&i) && seen_out.contains(&i) {
